@@ -159,7 +159,7 @@ CHECKS["C06"] = {
     "thorough": {"shards": 16, "checks": 4000},
     "rule": "rapid-generated sequences of block / undo (depth 1 or a random depth up to the whole history) / redo-the-undone-block steps, new blocks after an "
             "undo use leaves with different hashes (branch salt); run on Pollard, a full MapPollard and a partial MapPollard (generated TotalRows; partial "
-            "forests Verify(remember) a block's deletions first). Undo gets (numAdds, the block's proof, its deleted hashes, the previous roots) from the instance's recycled argument buffers; every other undo hands a FULL map forest a record carrying the targets only (it rebuilds the proof hashes itself). One step in eight (while a block can still be undone) writes every forest out and replaces it by what its own bytes restore to, so that undos and redos also run on restored objects. "
+            "forests Verify(remember) a block's deletions first). Undo gets (numAdds, the block's proof, its deleted hashes, the previous roots) from the instance's recycled argument buffers; every other undo hands a FULL map forest a record carrying the targets only (it rebuilds the proof hashes itself). One step in eight (while a block can still be undone) writes every forest out and replaces it by what its own bytes restore to, so that undos and redos also run on restored objects. In a quarter of the cases a full or partial map forest JOINS LATE from the bare roots before a drawn step (NewMapPollardFromRoots), learns what each later block spends through Verify(remember), applies the blocks and follows every undo - including undos of blocks applied before it existed - and must agree on the roots and prove what it verified / was told to remember with the canonical proof. "
             " Oracles: (1) after every step each instance equals the reference model (roots, count, every live leaf's position, not-found for every "
             "deleted or undone leaf, GetHash of every existing node, canonical proofs of 6 probe subsets, tracked-leaf count); (2) after each undo the "
             "instance equals the snapshot taken right before the undone block (positions of every hash ever added, GetHash at every position <= maxPos, "
